@@ -20,7 +20,7 @@ import (
 )
 
 type c16Item struct {
-	Kind string `json:"kind"` // gen | flip | trunc | junk | old
+	Kind string `json:"kind"` // gen | flip | trunc | junk | old | short (a forged record of the current epoch whose body has Len (0..15) bytes)
 	I    int    `json:"i"`    // which written record (gen, flip, trunc)
 	Pos  int    `json:"pos,omitempty"`
 	Mask byte   `json:"mask,omitempty"`
@@ -35,6 +35,9 @@ type c16ConnInput struct {
 	Items    []c16Item `json:"items"`
 	JunkSeed uint64    `json:"junk_seed"`
 	SeqBase  uint64    `json:"seq_base,omitempty"` // the peer's record sequence number is moved here before it writes (large numbers)
+	// PerClient: the window size comes from the configuration GetConfigForClient returns for this client; the listener-wide
+	// configuration says 32
+	PerClient bool `json:"per_client,omitempty"`
 }
 
 type c16ConnObs struct {
@@ -50,7 +53,13 @@ func c16ConnRun(in c16ConnInput) (obs c16ConnObs, coqItems, coqOuts []string) {
 	reg := tk.NewRegistry()
 	cc := tk.EPConfig{Suites: []uint16{in.Suite}, Ident: "cli", ServerName: "server.test", PMTU: 4000}
 	sc := tk.EPConfig{Ident: "srv", PMTU: 4000, ReplayWindow: in.Window}
-	dp := tk.NewDPair(tk.BuildDTLCP(cc, reg), tk.BuildDTLCP(sc, reg))
+	scfg := tk.BuildDTLCP(sc, reg)
+	if in.PerClient {
+		per := scfg.Clone()
+		scfg.ReplayWindow = 32
+		scfg.GetConfigForClient = func(*dtlcp.ClientHelloInfo) (*dtlcp.Config, error) { return per, nil }
+	}
+	dp := tk.NewDPair(tk.BuildDTLCP(cc, reg), scfg)
 	dp.Net.Quantum = 50 * time.Millisecond
 	capturing := false
 	var captured, early [][]byte
@@ -113,6 +122,13 @@ func c16ConnRun(in c16ConnInput) (obs c16ConnObs, coqItems, coqOuts []string) {
 				}
 			case "old":
 				data = append([]byte(nil), early[it.I%len(early)]...)
+			case "short":
+				n := it.Len % 16
+				seq := uint64(1000 + it.I)
+				data = []byte{23, 1, 1, 0, 1, byte(seq >> 40), byte(seq >> 32), byte(seq >> 24), byte(seq >> 16), byte(seq >> 8), byte(seq), 0, byte(n)}
+				for i := 0; i < n; i++ {
+					data = append(data, byte(jr.IntN(256)))
+				}
 			default:
 				data = make([]byte, 1+it.Len%120)
 				for i := range data {
@@ -125,6 +141,11 @@ func c16ConnRun(in c16ConnInput) (obs c16ConnObs, coqItems, coqOuts []string) {
 		}
 	}
 	sprog := func(c *dtlcp.Conn) {
+		defer func() {
+			if r := recover(); r != nil {
+				log = append(log, got{at: dp.Net.Now(), err: fmt.Sprintf("panic: %v", r)})
+			}
+		}()
 		if err := c.Handshake(); err != nil {
 			obs.Err = "server handshake: " + err.Error()
 			dp.Net.End(1).Close()
@@ -233,7 +254,9 @@ func c16ConnScript(r *rand.Rand, n, window int, forge int) []c16Item {
 	var items []c16Item
 	cur := 0
 	bogus := func() c16Item {
-		switch r.IntN(6) {
+		switch r.IntN(7) {
+		case 6:
+			return c16Item{Kind: "short", I: r.IntN(n), Len: r.IntN(16)}
 		case 0:
 			return c16Item{Kind: "flip", I: r.IntN(n), Pos: r.IntN(13), Mask: byte(1 << r.IntN(8))} // header: type, version, epoch, sequence number, length
 		case 1, 2:
@@ -304,10 +327,27 @@ func c16ConnGen(out *emit.Out, p params, r *rand.Rand) error {
 		in.ReadFrom = !in.ReadFrom
 		c16ConnAdd(out, "large-sequence-numbers", in)
 	}
+	// forged records of the current epoch with every body length below a nonce / a MAC, between genuine ones
+	for k, su := range []uint16{0xe053, 0xe013} {
+		in := c16ConnInput{Suite: su, Window: 64, ReadFrom: k == 1, N: 40, JunkSeed: r.Uint64()}
+		for i := 0; i < 16; i++ {
+			in.Items = append(in.Items, c16Item{Kind: "gen", I: i}, c16Item{Kind: "short", I: i, Len: i})
+		}
+		in.Items = append(in.Items, c16Item{Kind: "gen", I: 20})
+		c16ConnAdd(out, "short-forged-records", in)
+		in.ReadFrom = !in.ReadFrom
+		c16ConnAdd(out, "short-forged-records", in)
+	}
+	// the window size set for this client by GetConfigForClient (64, 100, 160), not the listener-wide 32
+	for k, w := range []int{64, 100, 160} {
+		in := c16ConnInput{Suite: []uint16{0xe013, 0xe053}[k%2], Window: w, ReadFrom: k%2 == 0, N: 150, JunkSeed: r.Uint64(), PerClient: true}
+		in.Items = c16ConnScript(r, in.N, w, 0)
+		c16ConnAdd(out, "per-client-window", in)
+	}
 	for k := 0; k < n; k++ {
 		w := windows[k%len(windows)]
 		suite := []uint16{0xe013, 0xe053}[(k/len(windows))%2]
-		in := c16ConnInput{Suite: suite, Window: w, ReadFrom: k%4 >= 2, N: 150, JunkSeed: r.Uint64()}
+		in := c16ConnInput{Suite: suite, Window: w, ReadFrom: k%4 >= 2, N: 150, JunkSeed: r.Uint64(), PerClient: w > 32 && k%2 == 1}
 		forge := []int{0, 25, 50}[k%3]
 		in.Items = c16ConnScript(r, in.N, w, forge)
 		c16ConnAdd(out, fmt.Sprintf("forge%d", forge), in)
